@@ -302,10 +302,10 @@ def explore(
     """
     root = [int(x) for x in root]
     frozen = max(frozen, 0)
-    stack = [list(root)]
+    stack = [(list(root), None)]
     nruns = 0
     while stack:
-        prefix = stack.pop()
+        prefix, expect = stack.pop()
         trace, result = run(list(prefix))
         nruns += 1
         if max_runs is not None and nruns > max_runs:
@@ -317,6 +317,10 @@ def explore(
             # a prefix produced by the explorer must be consumed completely: the choice point
             # that was varied existed in the parent run, so it must exist again
             raise HarnessError(f"replay met {len(trace)} choice points, prefix has {len(prefix)} (nondeterminism outside the oracle)")
+        if expect is not None and (trace[len(prefix) - 1].label, trace[len(prefix) - 1].n) != expect:
+            # same answers so far must lead to the same choice point (label and domain) as in the parent run
+            raise HarnessError(f"choice point {len(prefix) - 1} changed between runs with equal history: {expect} vs "
+                               f"{(trace[len(prefix) - 1].label, trace[len(prefix) - 1].n)}")
         yield Run(prefix, trace, result)
         start = max(len(prefix), len(root), frozen)
         devs_before = sum(1 for p in trace[frozen:start] if p.deviates)
@@ -328,11 +332,4 @@ def explore(
             base = [p.answer for p in trace[:i]]
             for alt in range(trace[i].n - 1, -1, -1):
                 if alt != trace[i].answer:
-                    stack.append(base + [alt])
-
-
-def tree_size_bound(domains: Sequence[int]) -> int:
-    out = 1
-    for d in domains:
-        out *= max(int(d), 1)
-    return out
+                    stack.append((base + [alt], (trace[i].label, trace[i].n)))
